@@ -63,3 +63,8 @@ chk("C17", "exploration",
     "fidelity of the fake APIs (accept every position, documented page sizes); the in-memory store keeps a comment where the platform's own IsEqual recognises it; coverage relation relaxed for GitHub patch lines and removed-line problems",
     "stateful store monitor + Commenter-interface spy over multi-round executions of the real reporters",
     "DESIGN.md §3 C17")
+chk("C06", "exploration",
+    "read-back monitor over in-process parser executions: for every field extracted from generated documents (all scalar styles, chomping and indentation indicators, multi-line plain/quoted, blank lines inside, escapes, flow maps, comments, indent 1-4, CRLF, strict and bare relaxed layouts) the positions are read back from the file unit by unit against the value; units must stay inside the field's source lines; rule line ranges must enclose their fields and stay within the rule's own source lines; a sample runs through the pint binary and every diagnostic's column range must address bytes of the field its positions belong to.",
+    "read-back rule tolerates line-break units for folds and absent units for trailing newlines; risky spellings are tagged by the generator and three root causes (escapes in double quotes, blank line inside folded/quoted/plain multi-line scalars, explicit indentation indicators) are listed known findings",
+    "runtime read-back oracle over in-process parser executions + H1 dump of pint child processes",
+    "DESIGN.md §3 C06")
